@@ -12,6 +12,7 @@ import traceback
 
 VERIF = os.path.dirname(os.path.dirname(os.path.abspath(__file__)))
 REPO = os.environ.get('VP_REPO', '/repo')
+MAXV = int(os.environ.get("VP_MAXV", "8"))
 NPROC = int(os.environ.get('VP_NPROC', '16'))
 
 
@@ -127,17 +128,17 @@ class Report(object):
             else:
                 unknown.append(v)
         os.makedirs(os.path.join(VERIF, 'replays'), exist_ok=True)
-        for v in unknown[:25]:
+        for v in unknown[:MAXV]:
             h = hashlib.sha1(v.sig.encode()).hexdigest()[:10]
             path = os.path.join(VERIF, 'replays', '%s-%s.json' % (self.prop, h))
             with open(path, 'w') as fh:
                 fh.write(jdump({'property': self.prop, 'signature': v.sig, 'message': v.msg,
                                 'count': self.viol_counts[v.sig], 'case': v.case,
                                 'replay': './check %s --replay %s' % (self.prop, path)}, indent=1))
-            print('  %s: %s' % (v.sig, short(v.msg, 600)))
+            print('  %s: %s' % (v.sig, short(v.msg, 400)))
             print('VIOLATION property=%s replay=%s' % (self.prop, path))
-        if len(unknown) > 25:
-            print('  ... and %d more distinct violation signatures' % (len(unknown) - 25))
+        if len(unknown) > MAXV:
+            print('  ... and %d more distinct violation signatures' % (len(unknown) - MAXV))
         cov = dict(self.coverage)
         cov.setdefault('evaluations', self.evaluations)
         cov.setdefault('distinct_nontrivial', len(self.nontrivial))
